@@ -84,4 +84,15 @@ theorem o0basis_gen (el : Elem) :
   simp only [from1ijkToO0, key]
   split <;> simp only [SqiGen.QuatAlg.from_1ijk_to_O0basis] <;> split <;> first | rfl | contradiction
 
+/-- the 16 entries `mat[r][c]` of an `ibz_mat_4x4_t` in row-major order -/
+def mtup (m : Mat4) : Int × Int × Int × Int × Int × Int × Int × Int × Int × Int × Int × Int × Int × Int × Int × Int :=
+  (m.r0.x0, m.r0.x1, m.r0.x2, m.r0.x3, m.r1.x0, m.r1.x1, m.r1.x2, m.r1.x3,
+   m.r2.x0, m.r2.x1, m.r2.x2, m.r2.x3, m.r3.x0, m.r3.x1, m.r3.x2, m.r3.x3)
+
+/-- `quat_alg_rightmul_mat`: both loops unrolled (`if (i)` resolved per iteration, `e.coord[i-1]` reset), one call of the
+    GENERATED `quat_alg_mul` per column -/
+theorem rightmul_mat_gen (p : Int) (a : Elem) :
+    SqiGen.QuatAlg.quat_alg_rightmul_mat p a.denom a.coord.x0 a.coord.x1 a.coord.x2 a.coord.x3 =
+      mtup (rightMulMat p a) := rfl
+
 end SqiProofs.QuatAlgText
